@@ -153,8 +153,9 @@ class InterceptingLLUDPProxyProtocol(UDPProxyProtocol):
         )
 
         # This message is owned by an async handler, drop it so it doesn't get
-        # sent with the normal flow.
-        if message.queued:
+        # sent with the normal flow. Whoever took it (or somebody else) may have
+        # dropped the original explicitly already, there's nothing left to do then.
+        if message.queued and not message.finalized:
             region.circuit.drop_message(message)
 
         # Shouldn't mutate the message past this point, so log it now.
